@@ -46,6 +46,7 @@ func runC14(p *Prog, r *Report) {
 	c14R4(p, r)
 	c14R5(p, r)
 	c14R6(p, r)
+	c14R7(p, r)
 }
 
 func trafficFields(p *Prog) []string {
@@ -741,11 +742,25 @@ func c14FlowsToResult(fc *FuncCtx, e ast.Expr, f string) bool {
 	if res := fc.ResultObj(0); res != nil && root == res && path == "."+f {
 		return true
 	}
-	if path != "" {
-		return false
-	}
 	rets := fc.Returns()
 	if len(rets) == 0 {
+		return false
+	}
+	if path == "."+f {
+		// field f of a local struct that every return hands back (possibly through plain copies)
+		for _, ret := range rets {
+			rs := fc.G.V[ret].Node.(*ast.ReturnStmt)
+			if len(rs.Results) != 1 {
+				return false
+			}
+			o := objOf(info, rs.Results[0])
+			if o == nil || !copyOfVar(fc, ret, o, root, 0) {
+				return false
+			}
+		}
+		return true
+	}
+	if path != "" {
 		return false
 	}
 	for _, ret := range rets {
@@ -801,3 +816,59 @@ func structFieldByType(p *Prog, pkgRel, typeName, what string, pred func(t types
 func isMapType(t types.Type) bool { _, ok := t.Underlying().(*types.Map); return ok }
 func isRWMutex(t types.Type) bool { return types.TypeString(t, nil) == "sync.RWMutex" }
 func isMutex(t types.Type) bool   { return types.TypeString(t, nil) == "sync.Mutex" }
+
+// c14R7: typestate of pooled packets. Once a relay hands a queued packet back to its pool
+// (putQueuedPacket / sync.Pool.Put), a receive loop may take it out again and overwrite its
+// fields at any moment, so nothing may read the packet afterwards — in particular not the length
+// that is added to the session's byte counter.
+func c14R7(p *Prog, r *Report) {
+	const rule = "C14-R7"
+	r.Rule(rule, "no use after release: on no path is a queued packet (or anything reached through the variable holding it) used after it was returned to the relay's packet pool and before the variable is given a new packet; the payload length added to a session's byte counter is therefore that of the packet just relayed, not of whatever packet the pool handed to another goroutine")
+	pkg := p.Pkg("service")
+	n := 0
+	p.AllFuncs(pkg, func(top *FuncCtx) {
+		for _, fc := range allCtxs(p, top) {
+			info := fc.Info()
+			ord := map[string]int{}
+			for _, cs := range fc.AllCalls() {
+				if cs.Fn == nil || len(cs.Call.Args) != 1 {
+					continue
+				}
+				isPut := cs.Fn.FullName() == "(*sync.Pool).Put" || (strings.HasPrefix(cs.Fn.Name(), "put") && strings.HasSuffix(cs.Fn.Name(), "QueuedPacket"))
+				if !isPut {
+					continue
+				}
+				x, _ := objOf(info, cs.Call.Args[0]).(*types.Var)
+				if x == nil || x.IsField() || x.Parent() == x.Pkg().Scope() {
+					continue
+				}
+				if top.Obj != nil && cs.Fn.FullName() == "(*sync.Pool).Put" && fc.ParamObj(0) == types.Object(x) && strings.HasPrefix(top.Obj.Name(), "put") {
+					continue // the pool wrapper itself
+				}
+				n++
+				defs := map[int]bool{}
+				for _, d := range fc.Defs(x) {
+					defs[d] = true
+				}
+				reach := fc.G.ReachAfter(cs.V, func(v *Vertex) bool { return defs[v.ID] }, nil)
+				bad := ""
+				badPos := cs.Pos()
+				for _, v := range fc.G.V {
+					if !reach[v.ID] || v.Node == nil || v.ID == cs.V {
+						continue
+					}
+					if usesObj(info, v.Node, x, false) {
+						bad = exprStr(v.Node)
+						badPos = p.posStr(v.Node.Pos())
+						break
+					}
+				}
+				k := ord[x.Name()]
+				ord[x.Name()]++
+				r.Check(bad == "", rule, fmt.Sprintf("%s:release-of-%s#%d", fc.Name, x.Name(), k), badPos, "the packet is not used again after it went back to the pool", "the packet is used after it was returned to the pool ("+bad+"): a receive loop may already have taken it out again and overwritten it, so the value read — e.g. the length added to the session's byte counter — belongs to some other packet")
+			}
+		}
+	})
+	r.Count("pool_release_sites", n)
+	r.Floor(rule, 30)
+}
